@@ -5,7 +5,8 @@ import Revm.Proofs.EvmLinkHost
 refers to present accounts only, it has at least the transaction level, cached balances are 256-bit words) and 256-bit
 balances in the database, no `World` operation and no `Host` answer hits an `unwrap` on a vacant entry, and
 well-formedness is kept. The only failures left are "soft": the code store does not know a hash (`code_by_hash`, a
-database miss), a missing oracle answer, a fatal database error. -/
+database miss), a precompile that panics (C23: MODEXP on a huge length with a huge gas limit does), a missing oracle
+answer, a fatal database error. -/
 set_option linter.unusedSimpArgs false
 set_option linter.unusedVariables false
 namespace Revm.Proofs.EvmLink
@@ -14,8 +15,10 @@ open Revm.Proofs.Frame (Good DbBal)
 open Revm.Proofs.Journal (Grows)
 
 /-- failures that are not Rust panics of the journal / frame / interpreter code: the code store (database) does not
-know a hash, the precompile / authority oracle has no answer, the database reports a fatal error -/
-def Soft (e : Err) : Prop := e = .panic "code_by_hash" ∨ (∃ m, e = .oracleMiss m) ∨ (∃ m, e = .fatal m)
+know a hash, an executable precompile panics (C23 `modexp` witness), the precompile / authority oracle has no answer,
+the database reports a fatal error -/
+def Soft (e : Err) : Prop :=
+  e = .panic "code_by_hash" ∨ e = .panic "precompile" ∨ (∃ m, e = .oracleMiss m) ∨ (∃ m, e = .fatal m)
 
 /-- `x` succeeds with a value satisfying `P`, or fails softly -/
 def Tot {α} (x : R α) (P : α → Prop) : Prop :=
@@ -43,12 +46,13 @@ theorem tot_codeOf {α} (o : Option α) : Tot (ofOpt "code_by_hash" o) (fun _ =>
   | none => exact Or.inl rfl
 theorem Tot.ok_inv {α} {x : R α} {P : α → Prop} (h : Tot x P) {a : α} (hx : x = .ok a) : P a := by
   subst hx; exact h
-/-- a total result is never a panic other than the code-store miss -/
+/-- a total result is never a panic other than the code-store miss and the precompile panic -/
 theorem Tot.no_panic {α} {x : R α} {P : α → Prop} (h : Tot x P) (m : String) (hx : x = .error (.panic m)) :
-    m = "code_by_hash" := by
+    m = "code_by_hash" ∨ m = "precompile" := by
   subst hx
-  rcases h with h | ⟨m', h⟩ | ⟨m', h⟩
-  · cases h; rfl
+  rcases h with h | h | ⟨m', h⟩ | ⟨m', h⟩
+  · cases h; exact Or.inl rfl
+  · cases h; exact Or.inr rfl
   · cases h
   · cases h
 
@@ -117,14 +121,22 @@ theorem tot_touch {w : World} (h : WOk w) (a : Nat) : Tot (w.touch a) (fun w1 =>
   rw [h1]
   exact ⟨wok_js h g', gr, hl⟩
 
-theorem tot_transfer {w : World} (h : WOk w) (src dst v : Nat) : Tot (w.transfer src dst v) (fun r => WS w r.1) := by
+theorem isSome_of_ne_none {α} {o : Option α} (h : o ≠ none) : o.isSome = true := by
+  cases o with
+  | none => exact absurd rfl h
+  | some a => rfl
+
+theorem tot_transfer {w : World} (h : WOk w) (src dst v : Nat) :
+    Tot (w.transfer src dst v) (fun r => WS w r.1 ∧ (r.1.js.state src).isSome ∧ (r.1.js.state dst).isSome) := by
   obtain ⟨s', r, h1, g', gr, hl⟩ := Proofs.Frame.transfer_good h.dbal h.good src dst v
+  obtain ⟨_, ps, pd⟩ := kle_transfer h1
   unfold World.transfer
   rw [h1]
-  show WS w (({ w with js := s' }.noteAddr src).noteAddr dst)
-  exact ⟨wok_noteAddr (wok_noteAddr (wok_js h g') _) _,
+  show WS w (({ w with js := s' }.noteAddr src).noteAddr dst) ∧ _
+  rw [Proofs.EvmHost.noteAddr_js, Proofs.EvmHost.noteAddr_js]
+  exact ⟨⟨wok_noteAddr (wok_noteAddr (wok_js h g') _) _,
     by rw [Proofs.EvmHost.noteAddr_js, Proofs.EvmHost.noteAddr_js]; exact gr,
-    by rw [Proofs.EvmHost.noteAddr_js, Proofs.EvmHost.noteAddr_js]; exact hl⟩
+    by rw [Proofs.EvmHost.noteAddr_js, Proofs.EvmHost.noteAddr_js]; exact hl⟩, isSome_of_ne_none ps, isSome_of_ne_none pd⟩
 
 /-- `checkpoint_revert` to a checkpoint of the journal -/
 theorem tot_revert {w : World} (h : WOk w) (cp : Journal.Checkpoint) (h1 : 1 ≤ cp.journalI)
